@@ -536,7 +536,11 @@ def mk_sample_defaults(rng):
                                   [{'path': '/p', 'method': ('POST', 'PUT', 'PATCH')}, {'path': '/q: "svc:op0": "@"', 'method': 'GET'}],
                                   [{'path': '/p/{id}', 'method': ['DELETE']}, {'path': '/r', 'method': ['GET', '"svc:op0": "@"']}]])
                 out.append(policy.DocumentedRuleDefault(name, check, desc or 'd', ops,
-                                                        scope_types=rng.choice([None, ['project'], ['system', 'domain']]), **kw))
+                                                        scope_types=rng.choice([None, ['project'], ['system', 'domain'],
+                                                                                ['system', 'domain', 'project', 'application_credential',
+                                                                                 'federated_identity', 'trust'],
+                                                                                ['a_single_scope_name_much_longer_than_any_line_width_an_emitter_would_fold_at_x'],
+                                                                                ['system: "svc:op0": "@"', 'project']]), **kw))
     return out
 
 
@@ -858,6 +862,9 @@ def c19(tier='quick', seed=0):
                              {'user_id': 'u1', 'a': {}, 'project_id': 'p1', 'target': {'project': {'id': 'zz'}}},
                              {}, {'target': {}}, {'target': {'secret': {}}, 'other': {}}])
         apply_rule = rng.choice([None, None, 'svc:op0', 'helper'])
+        if 'default' in pol and rng.random() < 0.3:
+            # a requested name the file does not define is answered by the file's default rule, as the library does
+            apply_rule = rng.choice(['svc:not_in_file', 'nope'])
         sb = Sandbox()
         try:
             sb.write('pol.json', pol, 'json')
